@@ -193,6 +193,9 @@ class Signed(BitVector):
         if isinstance(rhs, (int, Integer)):
             rhs = Integer.decay(rhs)
             target_width = self.width
+        elif isinstance(rhs, Signed):
+            # sign-extend to the result width before negating
+            rhs = Signed[max(self.width, rhs.width)](rhs)
 
         rhs = -rhs
         return self.add(rhs, target_width)
